@@ -117,6 +117,27 @@ def build_exhaustive(sc, sh, pid, l, sig, part=None):
                         sc.checkkey(k4, pid, pat4, 'resample')
                         sc.exp[-1][1]['ident'] = '%s -> %s -> resample(%d)' % (hist, op, further)
 
+        # directed adjustments that only toggle the omit-from-keys flag of one slot (the hidden entry carries the old value's bits)
+        for i in free_slots(pat)[:2]:
+            v = val()
+            fl = fixed_list(pat)
+            fixed_i, hidden_i = sorted(fl + [(i, v)]), sorted(fl + [(i, None)])
+            for frm, to, tag in ((fixed_i, hidden_i, 'hide'), (hidden_i, fixed_i, 'unhide')):
+                saved = sc.nkey
+                sc.nkey = 200 + (saved * 7 + len(sc.lines)) % 48
+                k1 = sc.newkey()
+                sc.nkey = saved
+                carried = v if rng.random() < 0.75 else rng.choice([0, rng.getrandbits(256)])
+                af, at = alist(frm, False, {i: carried}), alist(to, False, {i: carried})
+                sc.add('ndqualify %d %d %d %d %s %d' % (k1, pid, kid, max(0, l - len(frm)), af, sc.seed()), 'keyop', op='ndqualify', pattern=wkd.qualify_pattern(pat, frm, False),
+                       alloc=max(0, l - len(frm)), entries=frm, omit_all=False, parent_pattern=pat, ident=hist + ' -> ndqualify(from)')
+                pat2 = wkd.qualify_pattern(pat, to, False)
+                idn = '%s -> adjust(%s slot %d, hidden entry carries %s)' % (hist, tag, i, 'the same id' if carried == v else 'another id')
+                sc.add('adjust %d %d %s %s' % (k1, kid, af, at), 'keyop', op='adjust', pattern=pat2, alloc=None, entries=to, omit_all=False, ident=idn, tsig='toggle-' + tag)
+                sc.checkkey(k1, pid, pat2, 'adjust')
+                sc.exp[-1][1]['ident'] = idn
+                sc.exp[-1][1]['tsig'] = 'toggle-%s/%s' % (tag, 'same-id' if carried == v else 'other-id')
+
 
 def random_entries(pattern, rng, l, first):
     """a documented list for the next step"""
@@ -177,7 +198,7 @@ def build_random(sc, sh, pid, l, sig, nhist, depth):
                 k1, pat1 = sc.keyop('ndqualify', pid, l, frm, False, parent=kid, parent_pattern=pat)
                 sc.exp[-1][1]['ident'] = ident + ' -> ndqualify(from)'
                 pat2 = wkd.qualify_pattern(pat, to, False)
-                sc.add('adjust %d %d %s %s' % (k1, kid, alist(frm), alist(to)), 'keyop', op='adjust', pattern=pat2, alloc=None, entries=to, omit_all=False,
+                sc.add('adjust %d %d %s %s' % ((k1, kid) + wkd.alist_pair(frm, to, rng)), 'keyop', op='adjust', pattern=pat2, alloc=None, entries=to, omit_all=False,
                        ident=ident + ' -> adjust(%s => %s)' % (transition_sig(pat, frm, False, l), transition_sig(pat, to, False, l)))
                 k2 = k1
                 ident += ' -> adjust'
@@ -250,7 +271,7 @@ def run(ctx):
     ctx.extra['exhaustive'] = True
     ctx.extra['exhaustive_scope'] = 'l=3 one-step transitions (values sampled from %s)' % [hex(v) for v in VALUES]
     ctx.assumptions = ['library pairing/group arithmetic used as instrument by the monitor (independently checked by C01-C08)', 'slot-pattern model in checks/wkd.py']
-    need = ['check:qualify|', 'check:ndqualify|', 'check:keygen|', 'check:ndkeygen|', 'check:resample|', 'check:adjust|', 'setup|l3/sig1', 'setup|l3/sig0', 'setup|l20']
+    need = ['check:adjust|toggle-hide/same-id', 'check:adjust|toggle-unhide/same-id', 'check:qualify|', 'check:ndqualify|', 'check:keygen|', 'check:ndkeygen|', 'check:resample|', 'check:adjust|', 'setup|l3/sig1', 'setup|l3/sig0', 'setup|l20']
     for r in need:
         if not any(k.startswith(r) for k in ctx.classes):
             ctx.required_classes.add(r)
